@@ -18,7 +18,8 @@ EXPLANATION = ("Static error-discipline analysis of smt::solver and the model ch
                "Unknown with Unsat; PDR's Success/Fail/Unknown provenance; the solver's error text is extracted with length-safe idioms on the tested prefix; explicit abort sites on the response path are on a reviewed allow-list.")
 ASSUMPTIONS = ["a live but silent solver blocks read_line on the pipe: bounded time cannot be decided statically", "process-exit races between try_wait and the pipe are not decided"]
 LEVEL_TEXT = ("Static error-discipline / must-exit analysis over every response-bearing call site of a BMC or PDR run at once (no solver, no fault injection needed): decides that a fault is turned into an error on every path, "
-              "that unknown/garbage can never become a verdict, and that a truncated stream cannot spin the reader. Liveness against a silent but alive solver is outside static reach.")
+              "that unknown/garbage can never become a verdict, and that a truncated stream cannot spin the reader. Liveness against a silent but alive solver is outside static reach."
+              " The loop that completes a reply is controlled only by the parenthesis count and the byte count of the last read.")
 LEVEL_NOTE = "Decides error propagation and loop exits structurally; 'within bounded time' for a live silent solver is not decidable statically."
 TECHNIQUE = "Result-consumption dataflow rule, loop must-exit-on-EOF rule, discriminant-domain enumeration of CheckSatResponse branches, length-safe-slicing rule, panic-site inventory"
 
